@@ -742,3 +742,26 @@ Proof.
                     (uncaught_att_exc _ _ _ Hu)) as [logs [E _]].
   exists logs. exact E.
 Qed.
+
+(* ---------- the whole property for every job of every sequence *)
+Lemma run_job_spec : forall mode maxr j, 1 <= maxr -> job_spec mode maxr j (fst (run_job mode maxr false j)).
+Proof.
+  intros mode maxr j Hm. split; [|split].
+  - intros Hall. destruct (job_ok mode maxr j Hm Hall) as [logs [E _]]. rewrite E. reflexivity.
+  - intros pre p post e Es Hpre Hp He.
+    destruct (job_err mode maxr j pre p post e Hm Es Hpre Hp He) as [logs [E H]]. rewrite E. split; [reflexivity|exact H].
+  - apply nested_refused. exact Hm.
+Qed.
+
+Lemma sequence_spec : forall mode maxr js, 1 <= maxr ->
+  let outs := fst (run_jobs mode maxr false js) in
+  length outs = length js /\ snd (run_jobs mode maxr false js) = false /\
+  forall k j, nth_error js k = Some j -> is_lazy (j_action j) = false ->
+    exists o, nth_error outs k = Some o /\ job_spec mode maxr j o.
+Proof.
+  intros mode maxr js Hm. cbv zeta. rewrite usable_after. cbn [fst snd].
+  split; [apply map_length|]. split; [reflexivity|].
+  intros k j Hk Hstrict. exists (fst (run_any mode maxr false j)). split.
+  - rewrite nth_error_map, Hk. reflexivity.
+  - unfold run_any. rewrite Hstrict. apply run_job_spec. exact Hm.
+Qed.
